@@ -5,6 +5,10 @@
 //	L(<spec>)                list of
 //	S<name>#<id>             Kombination <name>; distinct ids are distinct type objects
 //	A<name>#<id>(<spec>)     type alias;  D<name>#<id>(<spec>)  type definition
+//	G<name>#<id>             type parameter (GenericType named "<name>#<id>")
+//	I<name>#<id>(<spec>)     resolved type parameter (*InstantiatedGenericType)
+//
+// Show renders a type built by an Env back into the grammar with names dropped (A#3(Z)).
 package tyspec
 
 import (
@@ -14,7 +18,10 @@ import (
 	"github.com/DDP-Projekt/Kompilierer/src/ddptypes"
 )
 
-type Env struct{ objs map[string]ddptypes.Type }
+type Env struct {
+	objs map[string]ddptypes.Type
+	rev  map[ddptypes.Type]string // pointer-identified object -> "<kind>#<id>" (built lazily by Show)
+}
 
 func New() *Env { return &Env{objs: map[string]ddptypes.Type{}} }
 
@@ -94,6 +101,80 @@ func (e *Env) parse(s string) (ddptypes.Type, string, error) {
 		}
 		e.objs[key] = t
 		return t, rest2, nil
+	case 'G':
+		name, id, rest := nameID(s[1:])
+		return ddptypes.GenericType{Name: name + "#" + id}, rest, nil
+	case 'I':
+		name, id, rest := nameID(s[1:])
+		key := "I" + name + "#" + id
+		inner, rest2, err := e.parse(rest[1:])
+		if err != nil {
+			return nil, "", err
+		}
+		rest2 = rest2[1:]
+		if t, ok := e.objs[key]; ok {
+			return t, rest2, nil
+		}
+		t := &ddptypes.InstantiatedGenericType{Actual: inner}
+		e.objs[key] = t
+		return t, rest2, nil
 	}
 	return nil, "", fmt.Errorf("bad spec %q", s)
+}
+
+// Register makes an object created elsewhere (e.g. by GetInstantiatedStructType) showable under key "<kind><name>#<id>".
+func (e *Env) Register(key string, t ddptypes.Type) { e.objs[key] = t }
+
+func (e *Env) keyOf(t ddptypes.Type) string {
+	if e.rev == nil || len(e.rev) != len(e.objs) {
+		e.rev = make(map[ddptypes.Type]string, len(e.objs))
+		for k, v := range e.objs {
+			e.rev[v] = k[:1] + k[strings.IndexByte(k, '#'):]
+		}
+	}
+	if k, ok := e.rev[t]; ok {
+		return k
+	}
+	return fmt.Sprintf("?%T", t)
+}
+
+// Show is the inverse of Parse up to names; objects not built by this Env print as ?<GoType>.
+func (e *Env) Show(t ddptypes.Type) string {
+	switch v := t.(type) {
+	case nil:
+		return "nil"
+	case ddptypes.PrimitiveType:
+		switch v {
+		case ddptypes.ZAHL:
+			return "Z"
+		case ddptypes.KOMMAZAHL:
+			return "K"
+		case ddptypes.BYTE:
+			return "B"
+		case ddptypes.WAHRHEITSWERT:
+			return "W"
+		case ddptypes.BUCHSTABE:
+			return "C"
+		case ddptypes.TEXT:
+			return "T"
+		}
+		return "?prim"
+	case ddptypes.Variable:
+		return "V"
+	case ddptypes.VoidType:
+		return "N"
+	case ddptypes.ListType:
+		return "L(" + e.Show(v.ElementType) + ")"
+	case *ddptypes.StructType:
+		return e.keyOf(t)
+	case *ddptypes.TypeAlias:
+		return e.keyOf(t) + "(" + e.Show(v.Underlying) + ")"
+	case *ddptypes.TypeDef:
+		return e.keyOf(t) + "(" + e.Show(v.Underlying) + ")"
+	case *ddptypes.InstantiatedGenericType:
+		return e.keyOf(t) + "(" + e.Show(v.Actual) + ")"
+	case ddptypes.GenericType:
+		return "G" + v.Name[strings.IndexByte(v.Name, '#'):]
+	}
+	return fmt.Sprintf("?%T", t)
 }
